@@ -622,10 +622,19 @@ def _find_class(hint: Any, pred) -> Any:
         return None
     h = strip_hint(hint)
     cands = h if isinstance(h, tuple) else (h,)
-    for c_ in cands:
-        if isinstance(c_, type) and pred(c_):
-            return c_
-    return None
+    found = [c_ for c_ in cands if isinstance(c_, type) and pred(c_)]
+    if len(found) == 1:
+        return found[0]
+    return None  # none, or several candidates: never guess which class an argument belongs to
+
+
+CLASS_OVERRIDES: dict[str, dict] = {}  # config class_overrides of the world being run (set by the check)
+
+
+def _class_for(models: Any, name: str) -> Any:
+    """The generated class of a component: its own name, or the class_name the configuration overrides it with."""
+    cname = (CLASS_OVERRIDES.get(name) or {}).get("class_name") or name
+    return getattr(models, cname, None)
 
 
 def py_value(schema: dict, J: Any, doc: dict, models: Any, hint: Any = None, file_cls: Any = None, literal_enums: bool = False) -> Any:
@@ -652,13 +661,13 @@ def py_value(schema: dict, J: Any, doc: dict, models: Any, hint: Any = None, fil
         # a reference to a component that is itself an alias of another component
         tgt = ((doc.get("components") or {}).get("schemas") or {}).get(name)
         hops = 0
-        while isinstance(tgt, dict) and hops < 6 and not hasattr(models, name):
+        while isinstance(tgt, dict) and hops < 6 and _class_for(models, name) is None:
             nm2 = ref_name(tgt)
             if nm2 is None:
                 break
             name, tgt, hops = nm2, ((doc.get("components") or {}).get("schemas") or {}).get(nm2), hops + 1
     if k == "model":
-        cls = getattr(models, name, None) if name else None
+        cls = _class_for(models, name) if name else None
         if cls is None:
             cls = _find_class(hint, lambda t: hasattr(t, "from_dict"))
         if cls is None:
@@ -669,7 +678,7 @@ def py_value(schema: dict, J: Any, doc: dict, models: Any, hint: Any = None, fil
     if k == "enum":
         if literal_enums:
             return J
-        cls = getattr(models, name, None) if name else None
+        cls = _class_for(models, name) if name else None
         if cls is None:
             cls = _find_class(hint, lambda t: issubclass(t, enum.Enum))
         if cls is None:
